@@ -51,6 +51,13 @@ def gen_case(g):
                 G.permute_names(ops[-1], rng)
         else:
             ops.append(g.const_operand(shape=shape, kind=lkind))
+            if ops[-1]["k"] == "list" and rng.random() < 0.5:
+                ops[-1]["tuple"] = True  # a tuple is an ordinary array-like: one operand
+        if count == 1 and ops[-1]["k"] not in ("list", "plist") and rng.random() < 0.3:
+            # a single operand that is a sequence of polynomials / numbers
+            items = [g.poly(shape=(), kind=lkind, maxexp=2, allow_views=False) if rng.random() < 0.6
+                     else {"k": "py", "v": G.jnum(g.number(lkind))} for _ in range(rng.choice([2, 3]))]
+            ops[-1] = {"k": "plist", "items": items, "tuple": rng.random() < 0.6}
     if rng.random() < 0.1 and count >= 2:
         ops[1] = ops[0]  # same operand twice
     case = {"fn": rng.choice(FUNCS), "operands": ops}
@@ -65,6 +72,13 @@ def expected_names(specs):
     for spec in specs:
         if spec["k"] == "poly":
             names |= set(spec["names"])
+        elif spec["k"] == "plist":
+            # one operand: the composed array (numbers among polynomials bring no name of their own)
+            inner = set()
+            for item in spec["items"]:
+                if item["k"] == "poly":
+                    inner |= set(item["names"])
+            names |= inner or {"q0"}
         else:
             names.add("q0")
     return tuple(sorted(names, key=M.numsuffix))
@@ -147,7 +161,8 @@ def run_case(case, ctx):
         return
     # index order is what align_indeterminants promises; align_exponents / align_polynomials only
     # have to build the union (in index order) when the operands' name tuples differ
-    tuples = {tuple(s["names"]) if s["k"] == "poly" else ("q0",) for s in specs}
+    tuples = {tuple(s["names"]) if s["k"] == "poly" else
+              (("plist", id(s)) if s["k"] == "plist" else ("q0",)) for s in specs}
     ordered = fn == "align_indeterminants" or len(tuples) > 1
     if aligns_names and options:
         # under non-default retain options unused input names may legitimately be dropped:
